@@ -338,6 +338,9 @@ def rule_sf6(ctx: Ctx) -> List[Ob]:
                     elif isinstance(c, ast.Dict) and any(v is n and isinstance(k, ast.Constant) and k.value == "method"
                                                          for k, v in zip(c.keys, c.values)):
                         role, ok, why = "differencing method", p == "grad", "stored as options['method'] (a mode string under `grad in FD_METHODS`)"
+                    elif isinstance(c, ast.Call) and (dotted(c.func) or "").endswith("approx_derivative") and \
+                            any(k.arg == "method" and k.value is n for k in c.keywords):
+                        role, ok, why = "differencing method", p == "grad", "passed as method= of the differencer (a mode string in the finite-difference branch)"
                     elif isinstance(c, ast.Assign) and c.value is n:
                         t = c.targets[0]
                         if isinstance(t, ast.Subscript) and isinstance(t.slice, ast.Constant) and t.slice.value == "method":
